@@ -37,7 +37,7 @@ def budget(tier):
 
 
 def strategy(tier):
-    return trav.cases()
+    return trav.cases(big=(tier != "quick"))
 
 
 def check_case(case):
